@@ -364,7 +364,9 @@ class G:
                     # a string literal for an array member, then single elements of the same array overridden, also beyond
                     # the end of the literal
                     for _ in range(d(st.integers(1, 3))):
-                        items.append(".%s[%d] = %s" % (mn, d(st.integers(0, mt.n - 1)), self.value(mt.elem)))
+                        # mostly in the upper half of the array, i.e. often beyond the end of the literal
+                        ix = d(st.integers(mt.n // 2, mt.n - 1)) if d(st.integers(0, 2)) else d(st.integers(0, mt.n - 1))
+                        items.append(".%s[%d] = %s" % (mn, ix, self.value(mt.elem)))
                     self.labels.add("string-then-element-override")
                     hi = max(hi, pos + 1)
                     pos = len(slots)
